@@ -37,9 +37,12 @@ fn sig(r: &mut Rng, base: u32, d: usize) -> BigUint {
 fn precision(m: &Mon, r: &mut Rng) -> usize {
     match r.below(20) {
         0..=9 => 1 + r.usize(20),
-        10..=13 => *r.pick(&[24usize, 53, 64, 100]),
+        10..=12 => *r.pick(&[24usize, 53, 64, 100]),
+        // digit counts next to machine-word boundaries of the significand (19 / 38 decimal digits, 64 / 128 / 256 bits ...):
+        // word-sized fast paths and multi-word helpers switch there
+        13 => *r.pick(&[19usize, 20, 27, 28, 29, 38, 39, 40, 63, 65, 77, 78, 116, 127, 128, 129, 154, 192, 255, 256, 257, 384, 512]),
         14..=16 => 1 + r.usize(3),
-        17 => 21 + r.usize(80),
+        17 | 18 => 21 + r.usize(80),
         _ => {
             if m.thorough() {
                 *r.pick(&[333usize, 1000])
